@@ -157,9 +157,10 @@ def gen_cost(g):
     k = g.pick(["const", "const", "lin", "poly"])
     if k == "const":
         return {"t": "const", "v": g.int(0, 5)}
+    zero_at_0 = g.chance(30)  # a cost function that vanishes at t = 0 is still a cost function
     if k == "lin":
-        return {"t": "lin", "a": g.int(-2, 3), "b": g.int(0, 5)}
-    return {"t": "poly", "c": [g.int(-1, 2), g.int(-2, 3), g.int(0, 5)]}
+        return {"t": "lin", "a": g.int(-2, 3), "b": 0 if zero_at_0 else g.int(0, 5)}
+    return {"t": "poly", "c": [g.int(-1, 2), g.int(-2, 3), 0 if zero_at_0 else g.int(0, 5)]}
 
 
 def gen_resources(g, spec, H):
@@ -455,6 +456,14 @@ def gen_formula(g, spec, H, depth, leaves=SIMPLE_LEAVES):
     ty = g.pick(FOL_TYPES)
     sub = lambda: gen_formula(g, spec, H, depth - 1, leaves)
     c = {"type": ty, "name": g.name("c")}
+    def fol_cond():
+        cd = gen_cond(g, spec, H)
+        if g.chance(12):
+            cd = {"op": "bool", "v": g.chance(50)}
+        if cd["op"] == "bool" and g.chance(60):
+            cd["py"] = True  # a python constant instead of a z3 term
+        return cd
+
     if ty == "Not":
         c["c"] = sub()
     elif ty in ("Or", "And"):
@@ -462,10 +471,10 @@ def gen_formula(g, spec, H, depth, leaves=SIMPLE_LEAVES):
     elif ty == "Xor":
         c["c1"], c["c2"] = sub(), sub()
     elif ty == "Implies":
-        c["cond"] = gen_cond(g, spec, H)
+        c["cond"] = fol_cond()
         c["cs"] = [sub() for _ in range(g.int(1, 2))]
     else:
-        c["cond"] = gen_cond(g, spec, H)
+        c["cond"] = fol_cond()
         c["then"] = [sub() for _ in range(g.int(1, 2))]
         c["else"] = [sub() for _ in range(g.int(1, 2))]
     return c
@@ -600,8 +609,8 @@ def gen_objective(g, ty, spec, H, idx):
             o["interval"] = g.interval(0, max(1, H if H is not None else 6))
     elif ty == "MinimizeResourceCost":
         pool = sorted(busy)
-        if not pool:
-            return None
+        if not pool or H is None:
+            return None  # cost functions may be negative for large t: not bounded without a horizon
         o["ress"] = g.subset(pool, 1, 3)
     elif ty in ("TasksStartLatest", "MinimizeGreatestStartTime", "MinimizeFlowtime"):
         o["tasks"] = None if g.chance(50) else g.subset(names, 1, 4)
@@ -627,6 +636,8 @@ def gen_objective(g, ty, spec, H, idx):
             return None
         o["ind"] = g.pick(pool)
         o.setdefault("weight", 1)
+        if g.chance(g.p.get("p_weight_zero", 15)):
+            o["weight"] = 0  # "any weights": an objective of weight 0 does not count in the weighted sum
     return o
 
 
